@@ -45,7 +45,10 @@ EST = {
 }
 
 
-@contract('C04', 'recovers', variants=[dict(e=k) for k in EST], optional=True, feas_timeout_ms=1500, budget_s=600, max_paths=300,
+QUICK = ('TRIAD.rotmat', 'ecompass.NED', 'ecompass.ENU', 'am2DCM.ENU', 'am2DCM.NED')
+
+
+@contract('C04', 'recovers', variants=[dict(e=k) for k in EST if k in QUICK], optional=True, feas_timeout_ms=1500, budget_s=600, max_paths=300,
           functions=sorted(EST))
 def c_recovers(c):
     g_ref, m_fn, run, direction = EST[c.p['e']]
@@ -57,6 +60,12 @@ def c_recovers(c):
     out = run(c, acc, mag, g, m)
     _is(c, 'attitude', out, R if direction == 'M' else R.T)
     c.observe('out', out)
+
+
+@contract('C04', 'recovers.thorough', variants=[dict(e=k) for k in EST if k not in QUICK], optional=True, feas_timeout_ms=1500,
+          budget_s=3000, max_paths=300, thorough_only=True, functions=['SAAM.estimate', 'FAMC.estimate', 'AQUA.estimate', 'TRIAD.estimate'])
+def c_recovers_t(c):
+    c_recovers(c)
 
 
 NOT_COVERED = ["Davenport, QUEST, FLAE (all modes), OLEQ (np.linalg.eig / iterations / random start: out of reach)",
